@@ -11,6 +11,15 @@ package composite
 //@   safety C13
 //@   invariant loop 1 [C03]: childMap != nil && noNilChildren(childMap)
 //@   invariant loop 2 [C03]: childMap != nil && noNilChildren(childMap)
+//@   // C03: what is listed, claimed and inserted
+//@   bind call UnstructuredManager.ClaimChildren: claimedKids, claimErr
+//@   bind loop 2: ci, kid
+//@   at List#1(l, sel) [C03]: pc.parentResource.Namespaced && listerNs(l) == parent.GetNamespace()
+//@   at List#2(l, sel) [C03]: !pc.parentResource.Namespaced
+//@   at UnstructuredManager.ClaimChildren(m, all) [C03,C02]: m != nil && ref(m.Controller) == ref(parent)
+//@   at UniformObjectMap.Insert(mm, p, o) [C03]: claimErr == nil && 0 <= ci && ci < len(claimedKids) && o == claimedKids[ci] && p == parent
+//@   invariant loop 1 [C03]: count(UniformObjectMap.InitGroup) == rangeindex + 1
+//@   ensures [C03] err == nil ==> count(UniformObjectMap.InitGroup) >= len(pc.cc.Spec.ChildResources)
 //@   ensures [C03] err == nil ==> m != nil && noNilChildren(m)
 //@   ensures [C03] err != nil ==> m == nil
 
